@@ -2,7 +2,7 @@
 // (constants, anchored integer/bit-level expressions, struct/reset tables) that the
 // hand-written model imports. Run on every check; output written only when it changed.
 //
-// usage: extract <repo-root> <out-dir>      (writes <out-dir>/Facts.lean and prints a JSON summary)
+// usage: extract <repo-root> <out-dir>      (writes <out-dir>/Facts.lean, Funcs.lean, Conn.lean and prints a JSON summary)
 package main
 
 import (
@@ -1054,9 +1054,22 @@ func main() {
 			}
 		}
 	}
+	connChanged := false
+	{
+		// C17, connection types: access, call and edge tables of tcpConn / wsConn / closeCallback (conn.go)
+		ctxt, clost := genConn(pkgs["client"])
+		lost = append(lost, clost...)
+		cout := filepath.Join(outDir, "Conn.lean")
+		if old, _ := os.ReadFile(cout); string(old) != ctxt {
+			connChanged = true
+			if err := os.WriteFile(cout, []byte(ctxt), 0o644); err != nil {
+				panic(err)
+			}
+		}
+	}
 	out := filepath.Join(outDir, "Facts.lean")
 	old, _ := os.ReadFile(out)
-	changed := !bytes.Equal(old, w.Bytes())
+	changed := !bytes.Equal(old, w.Bytes()) || connChanged
 	if changed {
 		if err := os.WriteFile(out, w.Bytes(), 0o644); err != nil {
 			panic(err)
